@@ -29,6 +29,9 @@ def run(ctx):
     D.check_unsafe(ctx, "R0")
     n = D.check_consumers(ctx, "R1")
     ctx.floor("R1", "rayon consumers in essential-vm / essential-check", n, 3)
+    ns = D.check_par_sites(ctx, "R1")
+    ctx.floor("R1", "functions that drive a parallel iterator", ns, 3)
+    D.check_once_initialisers(ctx, "R3")
     D.check_unordered_iteration(ctx, "R2")
     D.check_shared_state(ctx, "R3")
     D.check_ambient(ctx, "R4")
